@@ -353,8 +353,17 @@ func RunCheck(prop, tier string) int {
 		mergeEnum(cov, r, c, prop, tier, &findings, &exhaustive)
 	}
 	if c.MSpecs != nil {
+		// Mode M has a budget of its own, so that it is not starved by the
+		// schedule enumeration before it
+		mdl := time.Now().Add(90 * time.Second)
+		if tier == "thorough" {
+			mdl = time.Now().Add(12 * time.Minute)
+		}
+		if mdl.Before(deadline) {
+			mdl = deadline
+		}
 		for _, spec := range c.MSpecs(tier) {
-			rep, f := runMSpec(c, tier, spec, deadline)
+			rep, f := runMSpec(c, tier, spec, mdl)
 			findings = append(findings, f...)
 			if !rep.Complete {
 				exhaustive = false
